@@ -270,27 +270,26 @@ def load_known():
     return json.load(open(p))['findings']
 
 def evaluate(prop, cases, impl, model, spec):
-    """Per case: 'ok' | ('violation', kind, detail) | ('mismatch', detail)."""
+    """Per case: (violation or None, mismatch or None); violation = (kind, detail)."""
     out = []
     for i, c in enumerate(cases):
         iobs, verdict = impl[i] if i < len(impl) else ('MISSING', '-')
         mobs = model[i] if i < len(model) else 'MISSING'
         sobs = spec[i] if i < len(spec) else '-'
-        r = 'ok'
+        viol = None; mism = None
         if iobs == 'SKIPPED':
-            out.append(r); continue
+            out.append((None, None)); continue
         if verdict.startswith('FAIL'):
             parts = verdict.split(':', 2)
-            r = ('violation', parts[1] if len(parts) > 1 else 'fail', parts[2] if len(parts) > 2 else '')
-        elif sobs != '-' and 'spec_project' in prop and prop['spec_project'](c, iobs) is None:
-            if mobs != '-' and mobs != iobs:
-                r = ('mismatch', 'impl differs from the model')
-        elif sobs != '-' and sobs != (prop['spec_project'](c, iobs) if 'spec_project' in prop else iobs):
-            kind = prop['classify'](c, iobs, mobs, sobs) if 'classify' in prop else 'spec-mismatch'
-            r = ('violation', kind, 'impl differs from the specification')
-        elif mobs != '-' and mobs != iobs:
-            r = ('mismatch', 'impl differs from the model')
-        out.append(r)
+            viol = (parts[1] if len(parts) > 1 else 'fail', parts[2] if len(parts) > 2 else '')
+        elif sobs != '-':
+            proj = prop['spec_project'](c, iobs) if 'spec_project' in prop else iobs
+            if proj is not None and sobs != proj:
+                kind = prop['classify'](c, iobs, mobs, sobs) if 'classify' in prop else 'spec-mismatch'
+                viol = (kind, 'impl differs from the specification')
+        if mobs != '-' and mobs != iobs:
+            mism = 'impl differs from the model'
+        out.append((viol, mism))
     return out
 
 def main(argv):
@@ -379,16 +378,14 @@ def _run_check(prop, tier, seed, replay, info, work, t0):
                     dist[k] = dist.get(k, 0) + 1
             if len(samples) < 3 and len(c) < 600:
                 samples.append({'case': c, 'impl': iobs[:300], 'model_agrees': mobs == iobs or mobs == '-'})
-            r = res[i]
-            if r == 'ok':
-                continue
-            if r[0] == 'violation':
-                if r[1] in known_kinds:
-                    known_hits.setdefault(r[1], (c, r[2]))
+            viol, mism = res[i]
+            if viol:
+                if viol[0] in known_kinds:
+                    known_hits.setdefault(viol[0], (c, viol[1]))
                 else:
-                    violations.append((c, r[1], r[2], iobs, mobs, sobs, dom))
-            else:
-                mismatches.append((c, r[1], iobs, mobs, sobs, dom))
+                    violations.append((c, viol[0], viol[1], iobs, mobs, sobs, dom))
+            if mism:
+                mismatches.append((c, mism, iobs, mobs, sobs, dom))
 
     if replay:
         rp = json.load(open(replay))
